@@ -6,6 +6,7 @@
   source (scico)                                   → definition here
   -------------------------------------------------------------------------------
   solver.py  cg (while loop, tol/atol, M, x0, info) → `cgInit cgStep cgCond cgLoop cgRun cg cgTop`
+  jax.scipy.sparse.linalg.cg (contract; ADMM cg_function="jax") → `jaxCgInit jaxCgStep jaxCgCond jaxCgLoop jaxCg`
   flax/inverse.py  cg_solver (lax.scan)             → `scanInit scanStep scanIter cgScan`
   solver.py  lstsq                                  → `lstsqSys lstsq`
   metric.py  rel_res                                → `relResOf relRes`
@@ -169,6 +170,88 @@ def cgTop (ops : CGOps S R V) (A : V → V) (isLinop : Bool) (zeroV : V) (M : Op
   match x0 with
   | some x => .ok (cg ops A M' b x tol atol maxiter)
   | none => if isLinop then .ok (cg ops A M' b zeroV tol atol maxiter) else .error "value"
+
+/-! ### `jax.scipy.sparse.linalg.cg` (`_cg_solve`) — the back end of `LinearSubproblemSolver(cg_function="jax")`
+
+Third-party code, modelled as its *contract*: same recurrences as `cg`, but every inner product is
+`_vdot_real_tree` (real part, cast back to `dtype`), and the loop tests the **true** squared residual
+(`gamma.real` only when no preconditioner was given).  Returns `x` only (`info = None`). -/
+
+structure JaxOps (S R V : Type) where
+  /-- `_vdot_real_tree(x, y)`: real part of `vdot(x, y)` -/
+  vdotRe : V → V → R
+  /-- `.astype(dtype)` -/
+  ofReal : R → S
+  /-- `gamma.real` -/
+  re : S → R
+
+structure JaxCGState (S V : Type) where
+  x : V
+  r : V
+  gamma : S
+  p : V
+  k : Nat
+
+omit [Mul R] [Div R] [Max R] in
+/-- `r0 = b - A(x0); p0 = z0 = M(r0); gamma0 = vdot_real(r0, z0)` -/
+def jaxCgInit (ops : JaxOps S R V) (A M : V → V) (b x0 : V) : JaxCGState S V :=
+  let r0 := b - A x0
+  let z0 := M r0
+  { x := x0, r := r0, gamma := ops.ofReal (ops.vdotRe r0 z0), p := z0, k := 0 }
+
+omit [Mul R] [Div R] [Max R] in
+/-- `body_fun` -/
+def jaxCgStep (ops : JaxOps S R V) (A M : V → V) (s : JaxCGState S V) : JaxCGState S V :=
+  let Ap := A s.p
+  let alpha := s.gamma / ops.ofReal (ops.vdotRe s.p Ap)
+  let x' := s.x + alpha • s.p
+  let r' := s.r - alpha • Ap
+  let z' := M r'
+  let gamma' := ops.ofReal (ops.vdotRe r' z')
+  let beta := gamma' / s.gamma
+  { x := x', r := r', gamma := gamma', p := z' + beta • s.p, k := s.k + 1 }
+
+omit [Mul R] [Div R] [Max R] in
+/-- `cond_fun`: `rs = gamma.real if M is _identity else vdot_real(r, r)`; `(rs > atol2) & (k < maxiter)` -/
+def jaxCgCond [LT R] [DecidableLT R] (ops : JaxOps S R V) (mIsId : Bool) (maxiter : Nat) (atol2 : R)
+    (s : JaxCGState S V) : Bool :=
+  let rs := if mIsId then ops.re s.gamma else ops.vdotRe s.r s.r
+  decide (atol2 < rs) && decide (s.k < maxiter)
+
+omit [Div R] in
+/-- `atol2 = maximum(square(tol) * vdot_real(b, b), square(atol))` -/
+def jaxAtol2 (tol atol bs : R) : R := max (tol * tol * bs) (atol * atol)
+
+omit [Mul R] [Div R] [Max R] in
+/-- `lax.while_loop(cond_fun, body_fun, initial_value)` with fuel -/
+def jaxCgLoop [LT R] [DecidableLT R] (ops : JaxOps S R V) (A M : V → V) (mIsId : Bool) (maxiter : Nat) (atol2 : R) :
+    Nat → JaxCGState S V → JaxCGState S V
+  | 0, s => s
+  | fuel + 1, s =>
+    if jaxCgCond ops mIsId maxiter atol2 s then jaxCgLoop ops A M mIsId maxiter atol2 fuel (jaxCgStep ops A M s) else s
+
+omit [Mul R] [Div R] [Max R] in
+/-- all states visited -/
+def jaxCgRun [LT R] [DecidableLT R] (ops : JaxOps S R V) (A M : V → V) (mIsId : Bool) (maxiter : Nat) (atol2 : R) :
+    Nat → JaxCGState S V → List (JaxCGState S V)
+  | 0, s => [s]
+  | fuel + 1, s =>
+    if jaxCgCond ops mIsId maxiter atol2 s then s :: jaxCgRun ops A M mIsId maxiter atol2 fuel (jaxCgStep ops A M s) else [s]
+
+omit [Add V] [Sub V] [SMul S V] [Div S] [Mul R] [Div R] [Max R] in
+/-- `M = None` is `_identity` -/
+def precondOf (M : Option (V → V)) : V → V :=
+  match M with
+  | some m => m
+  | none => fun v => v
+
+omit [Div R] in
+/-- `jax.scipy.sparse.linalg.cg(A, b, x0, tol=, atol=, maxiter=, M=)[0]` -/
+def jaxCg [LT R] [DecidableLT R] (ops : JaxOps S R V) (A : V → V) (M : Option (V → V)) (b x0 : V) (tol atol : R)
+    (maxiter : Nat) : V :=
+  (jaxCgLoop ops A (precondOf M) M.isNone maxiter (jaxAtol2 tol atol (ops.vdotRe b b)) maxiter
+    (jaxCgInit ops A (precondOf M) b x0)).x
+
 
 /-! ### fixed-iteration variant  (`scico.flax.inverse.cg_solver`) -/
 
@@ -462,6 +545,20 @@ def goldInit (gr : α) (a b : Vec α n) (c : Option (Vec α n)) : GoldSt α n :=
     d := fun i => a i + gr * (b i - a i)
     xerr := 0, steps := 0 }
 
+/-- `goldInit` after `fixes/golden-c-beyond-d.patch`: a supplied `c` and `d` are put in order
+    (`lo = minimum(c, d); hi = maximum(c, d); c = where(lo < hi, lo, b - gr (b - a)); d = where(lo < hi, hi, d)`) -/
+def goldInitSorted (gr : α) (a b : Vec α n) (c : Option (Vec α n)) : GoldSt α n :=
+  match c with
+  | none => goldInit gr a b none
+  | some c =>
+    let d0 : Vec α n := fun i => a i + gr * (b i - a i)
+    let lo : Vec α n := fun i => if c i < d0 i then c i else d0 i
+    let hi : Vec α n := fun i => if c i < d0 i then d0 i else c i
+    { a := a, b := b
+      c := fun i => if lo i < hi i then lo i else b i - gr * (b i - a i)
+      d := fun i => if lo i < hi i then hi i else d0 i
+      xerr := 0, steps := 0 }
+
 /-- the part of the loop body before the `break` test -/
 def goldShrink (f : Fin n → α → α) (s : GoldSt α n) : GoldSt α n :=
   let fc : Vec α n := freeze fun i => f i (s.c i)
@@ -494,6 +591,12 @@ def goldPick (f : Fin n → α → α) (s : GoldSt α n) : Vec α n :=
 def golden (gr : α) (f : Fin n → α → α) (a b : Vec α n) (c : Option (Vec α n)) (xtol : α) (maxiter : Nat) :
     Vec α n × GoldSt α n :=
   let s := goldLoop gr f xtol maxiter (goldInit gr a b c)
+  (goldPick f s, s)
+
+/-- `golden` with the ordered interior points of `fixes/golden-c-beyond-d.patch` -/
+def goldenSorted (gr : α) (f : Fin n → α → α) (a b : Vec α n) (c : Option (Vec α n)) (xtol : α) (maxiter : Nat) :
+    Vec α n × GoldSt α n :=
+  let s := goldLoop gr f xtol maxiter (goldInitSorted gr a b c)
   (goldPick f s, s)
 
 end Golden
